@@ -27,6 +27,8 @@
 (*                    decoded without error                                *)
 (*   X05.NodePrefix   a node whose bytes are not all present is not read   *)
 (*                    without error; one that is wholly present is read    *)
+(*   X05.Placeholder  a polyform loader that reports an error returns no   *)
+(*                    more records next to it than are wholly present      *)
 (* Model.xxx bind harness and specification (reported as infrastructure).  *)
 (***************************************************************************)
 EXTENDS PcFormats, Json
@@ -163,6 +165,7 @@ JHier(f, v) ==
                 /\ (f.meta.spacing % Pow2(Len(nm)) = 0 => o.sp = U(f.meta.spacing \div Pow2(Len(nm)))))
         \cup Need("X05.HierAgg",
                 /\ v.height = Height(f, <<>>) /\ v.desc = Len(f.nodes) - 1 /\ v.walk = Len(f.nodes)
+                /\ v.walk1 = 1 + Cardinality(KidIdx(f, <<>>))
                 /\ v.pcount = U(Sum([i \in DOMAIN f.nodes |-> FinalPts(f.nodes[i])])) /\ v.maxp = MaxPts(f))
 
 JudgeFull(api, f, v) ==
@@ -185,6 +188,17 @@ JNode(f, i, v) ==
     \cup Need("X05.NodePos", v.mesh.pos = NodePos(f, i, TRUE) /\ v.apos = NodePos(f, i, FALSE))
     \cup Need("X05.NodeColor", IF hasCol THEN v.mesh.col = NodeCol(f, i) /\ v.acol = NodeCol(f, i)
                                ELSE v.mesh.col = <<>> /\ v.acol = Rep(n, Rep(3, U(0))))
+
+\* the first k points of node i, read into a caller buffer that holds only k points
+JNodeShort(f, i, v) ==
+    LET a == f.meta.attrs  k == Len(f.ons[i].pts) \div 2  hasCol == ColIdx(a) # 0 IN
+    Need("X05.NodeRead", v.n = k * Bpp(a))
+    \cup Need("X05.NodeMesh", MeshIsCloud(v.mesh, k))
+    \cup Need("X05.NodePos", v.mesh.pos = SubSeq(NodePos(f, i, TRUE), 1, k))
+    \cup Need("X05.NodeColor", v.mesh.col = (IF hasCol THEN SubSeq(NodeCol(f, i), 1, k) ELSE <<>>))
+
+PolyformApis == {"colmap.ReadSparsePointData", "colmap.LoadSparsePointData", "colmap.LoadImageData",
+                 "opensfm.ReadReconstructiontData", "opensfm.LoadReconstructiontData"}
 
 \* ---------------------------------------------------------------- lines ---
 ContentOK(f) ==
@@ -231,6 +245,8 @@ TCut ==
                   \cup (IF o.kind = "ok"
                         THEN (IF ln.at < cur.reqEnd THEN {"X05.Prefix"} ELSE JudgeFull(ln.api, cur.f, o.v))
                         ELSE {})
+                  \cup (IF o.kind = "error" /\ ln.api \in PolyformApis /\ o.nd > WholeRecs(cur.f, ln.at)
+                        THEN {"X05.Placeholder"} ELSE {})
                   \cup Need("Model.Cut", /\ ln.at \in 0..(cur.len - 1) /\ <<ln.api, ln.at>> \notin seen.cut
                                          /\ o.kind \in {"ok", "error", "panic", "timeout"}
                                          /\ ln.api \in ReaderApis(cur.f.fmt) \cup PathApis(cur.f.fmt))
@@ -249,7 +265,7 @@ TNode ==
            bad == (IF o.kind = "timeout" THEN {"X05.Terminates"} ELSE {})
                   \cup (IF o.kind = "panic" THEN {"X05.Reports"} ELSE {})
                   \cup (IF ln.short
-                        THEN Need("X05.NodeRead", o.kind = "ok" /\ o.v.n = size \div 2 /\ Len(o.v.bytes) = size \div 2)
+                        THEN (IF o.kind = "ok" THEN JNodeShort(f, i, o.v) ELSE {"X05.NodeRead"})
                         ELSE IF whole THEN (IF o.kind = "ok" THEN JNode(f, i, o.v) ELSE {"X05.NodePrefix"})
                         ELSE Need("X05.NodePrefix", o.kind # "ok"))
                   \cup Need("Model.Cut", /\ f.fmt = "pnode" /\ i \in DOMAIN f.ons /\ ln.at \in 0..cur.len
